@@ -303,7 +303,33 @@ func init() {
 		v, y := bigVal(f, recv, st), bigVal(f, args[0], st)
 		return []Val{Sc{Ite(Lt(v, y), IntLit(-1), Ite(Eq(v, y), IntLit(0), IntLit(1)))}}
 	}
+	externs["math/big.NewInt"] = func(f *Frame, call *ast.CallExpr, recv Val, args []Val, st *State) []Val {
+		c := f.in.newCell("bigint", CVar, nil)
+		st.store[c] = Sc{args[0].(Sc).T}
+		return []Val{PtrV{To: c, Nil: TFalse}}
+	}
 	externsRaw = map[string]func(f *Frame, call *ast.CallExpr, st *State) []Val{}
+	// sort.SliceStable(x, less): x becomes a permutation of its old content; the comparator
+	// is assumed pure (it is not executed symbolically).
+	externsRaw["sort.SliceStable"] = func(f *Frame, call *ast.CallExpr, st *State) []Val {
+		in := f.in
+		sl, ok := f.evalExpr(call.Args[0], st).(SliceV)
+		if !ok {
+			in.unsupported(call.Pos(), "sort.SliceStable on non-slice")
+		}
+		old := in.load(st, sl.Reg, f).(ArrV)
+		na := in.D.fresh("sorted", old.T.Sort)
+		perm := in.D.fresh("perm", ArrSort(SInt))
+		x := Term{S: "x", Sort: SInt}
+		y := Term{S: "y", Sort: SInt}
+		inr := func(v Term) Term { return And(Le(IntLit(0), v), Lt(v, sl.Len)) }
+		st.assume(Forall([]Term{x}, Implies(inr(x), And(inr(Select(perm, x)), Eq(Select(na, Add(sl.Off, x)), Select(old.T, Add(sl.Off, Select(perm, x)))))), []Term{Select(na, Add(sl.Off, x))}))
+		st.assume(Forall([]Term{x, y}, Implies(And(inr(x), inr(y), Not(Eq(x, y))), Not(Eq(Select(perm, x), Select(perm, y)))), []Term{Select(perm, x), Select(perm, y)}))
+		st.assume(Forall([]Term{x}, Implies(Not(inr(x)), Eq(Select(na, Add(sl.Off, x)), Select(old.T, Add(sl.Off, x)))), []Term{Select(na, Add(sl.Off, x))}))
+		st.store[sl.Reg] = ArrV{T: na, N: old.N}
+		in.note("sort.SliceStable: the slice becomes a permutation of its old content (injective index map); the comparator is assumed pure and is not executed")
+		return nil
+	}
 	externsRaw["fmt.Errorf"] = func(f *Frame, call *ast.CallExpr, st *State) []Val {
 		in := f.in
 		e := f.errFresh(st, "errorf")
